@@ -609,6 +609,22 @@ func runHarness(h *Harness, tier string, seed int, repoDir string) *HarnessResul
 		}
 	}
 	if err != nil && len(res.Failures) == 0 {
+		o := out.String()
+		switch {
+		case strings.Contains(o, "WARNING: DATA RACE"):
+			i := strings.Index(o, "WARNING: DATA RACE")
+			res.Failures = append(res.Failures, HarnessFailure{Case: "race-detector", Detail: firstLines(o[i:], 24)})
+		case strings.Contains(o, "panic:") || strings.Contains(o, "fatal error:"):
+			i := strings.Index(o, "panic:")
+			if i < 0 {
+				i = strings.Index(o, "fatal error:")
+			}
+			res.Failures = append(res.Failures, HarnessFailure{Case: "library-panic", Detail: firstLines(o[i:], 24)})
+		case strings.Contains(o, "test timed out"):
+			res.Failures = append(res.Failures, HarnessFailure{Case: "timeout", Detail: lastLines(o, 12)})
+		}
+	}
+	if err != nil && len(res.Failures) == 0 {
 		res.InfraError = "harness did not complete: " + err.Error() + "\n" + lastLines(out.String(), 30)
 	} else if !sawSummary && len(res.Failures) == 0 {
 		res.InfraError = "harness printed no summary\n" + lastLines(out.String(), 30)
